@@ -43,8 +43,8 @@ func FeedLog(ctx context.Context, l config.Log, w feeder.Witness, c *http.Client
 		if from.Size == 0 {
 			return [][]byte{}, nil
 		}
-		// tlog's tree arithmetic only supports sizes up to 2^62 (tlog.ProveTree does not return for larger ones).
-		if to.Size > 1<<62 {
+		// tlog's tree arithmetic only supports sizes below 2^62 (tlog.ProveTree and the tile hash reader do not return for larger ones).
+		if to.Size >= 1<<62 {
 			return nil, fmt.Errorf("tree size %d is too large", to.Size)
 		}
 		tr := tileReader{c: sdb}
